@@ -16,6 +16,9 @@ def run(tier, seed):
     enginecommon.histories(v, wd, "blocker", 3 if tier == "quick" else 4)
     # ... and to a blocker whose initial list has no $domain= rule at all
     enginecommon.histories(v, wd, "blocker", 3 if tier == "quick" else 4, initset="notagblock")
+    # "requests with unsupported schemes are never matched" on the other entry point (check_network_request_subset under
+    # every flag combination): one-rule lists of the c01 pool against its ftp / wss requests
+    netcommon.mc_and_replay(v, wd, "c01", 1, False, workers=8)
     # the text side: option spellings -> rule AST (Options.tla)
     rep_o = netcommon.option_spellings(v, wd, 2 if tier == "quick" else 3)
     vlib.require(rep_o["nontrivial"] > 300, "option-spelling replay too small")
